@@ -236,7 +236,7 @@ func ruleC21(c *Ctx) {
 		_, unknown := kts["?"]
 		c.Require("keytype", "database.cache."+fld+": Add, Get and Remove use one key type", len(ts) == 1 && !unknown && fld != "?", "%s", d)
 	}
-	c.Explain("C21 (structural part): write→invalidate pairing + cached-object immutability + loop-variable capture. Decided: every store writer of a cached key class invalidates that cache entry after its database write (header, block hashes by height, main-chain hash per attached height, checkpoint per saved key); cache fills read the key class the writers write; no value returned by a cache lookup is mutated inside package database (a field store, or an append assigned back, through the returned pointer) — reads hand out copies; the deferred invalidation closures capture no per-loop variable. Not decided: fill/invalidate races between concurrent readers and writers; mutation of returned headers/blocks by callers outside package database.")
+	c.Explain("C21 (structural part): write→invalidate pairing + cached-object immutability + loop-variable capture. Decided: every store writer of a cached key class invalidates that cache entry after its database write (header, block hashes by height, main-chain hash per attached height, checkpoint per saved key); cache fills read the key class the writers write; no value returned by a cache lookup is mutated inside package database (a field store, or an append assigned back, through the returned pointer) — reads hand out copies; the deferred invalidation closures capture no per-loop variable; the constant key prefixes of the singleflight call sites sharing one group are pairwise non-overlapping. Not decided: fill/invalidate races between concurrent readers and writers; mutation of returned headers/blocks by callers outside package database.")
 	db := "database"
 	pair := func(fn, write, inval string) {
 		f := c.Func(db, fn)
@@ -332,6 +332,8 @@ func ruleC21(c *Ctx) {
 		c.Machinef("cachemut: only %d cache lookups found in package database", nLook)
 	}
 	c.RequireNoLoopvarEscape("loopvar", 1, db)
+	c.singleflightKeys("keyspace")
+	c.Floor("keyspace", 5)
 	c.Floor("pairing", 4)
 	c.Floor("cachemut", 4)
 }
